@@ -5,8 +5,8 @@ state": the simulator reaches states by seeded add/remove histories over a pool 
 colliding ids and injects each rejection there (duplicate id by the same / another object, unknown id,
 strict lookup, out-of-bounds placement on each axis and side), comparing a full observable snapshot
 before and after."""
-from ECAgent.Core import Agent, AgentNotFoundError, Component, DuplicateAgentError, Model
-from ECAgent.Environments import PositionComponent
+from ECAgent.Core import Agent, AgentNotFoundError, Component, DuplicateAgentError, Environment, Model
+from ECAgent.Environments import GridWorld, PositionComponent
 
 from .worlds import RefWorld, gen_world, get_pos, make_world
 
@@ -19,14 +19,15 @@ RULE = ("plain, continuous and grid environments; a pool of agent objects with d
         "(remove, strict lookup) and oob(axis, side, near|far) generated against the current state; non-trivial = >=3 "
         "residents at some point, >=1 removal from the middle followed by iteration and >=2 different rejection kinds "
         "fired; distinct = sequence of (op, outcome, population)"
-        "; also: continuous extents in (0,1), fractional out-of-bounds coordinates in grids, worlds that are not model.environment, an environment without any model, callers that edit returned listings / use the random helpers, model lifecycle ops")
+        "; also: continuous extents in (0,1), fractional out-of-bounds coordinates in grids, worlds that are not model.environment, an environment without any model, callers that edit returned listings / use the random helpers, model lifecycle ops, agents that are environments themselves (own components, inhabitants, population changing while resident)")
 COMPONENTS = {"real": ["ECAgent.Core.Environment add_agent / remove_agent / get_agent / get_agents / __len__ / __iter__",
                        "SpaceWorld / DiscreteWorld / GridWorld / LineWorld add_agent / remove_agent",
                        "SystemManager component pools (observed)"],
               "stub": ["agents and component classes are harness-defined"]}
 PROBES = ["dup_same_object", "dup_other_object", "unknown_remove", "unknown_strict_lookup", "oob_x_lo", "oob_x_hi",
           "oob_y_lo", "oob_y_hi", "oob_z_lo", "oob_z_hi", "oob_far", "reject_on_empty_environment", "remove_from_middle",
-          "readd_after_remove", "plain_env", "spatial_env", "model_lifecycle_op", "caller_scrambles_listing", "oob_fractional_in_grid", "environment_without_model"]
+          "readd_after_remove", "plain_env", "spatial_env", "model_lifecycle_op", "caller_scrambles_listing", "oob_fractional_in_grid", "environment_without_model",
+          "agent_is_an_environment", "nested_population_changed_while_resident"]
 TECHNIQUE = "deterministic simulation: every rejection injected at states reached by seeded add/remove histories, full observable snapshot compared before/after, insertion-ordered map reference"
 LEVEL_TEXT = ("Seeded search over add/remove histories with colliding ids; after every operation length, iteration, listing and "
               "lookup must agree with an insertion-ordered reference; each injected rejection must raise the documented class "
@@ -57,6 +58,8 @@ def generate(rng, tier):
     world["attached"] = rng.random() < 0.8
     orphan = world["kind"] == "plain" and rng.random() < 0.2
     ids = [f"i{j}" for j in range(rng.randint(1, 5))]
+    if rng.random() < 0.15:
+        ids[rng.randrange(len(ids))] = ""          # the empty string is an id like any other (and falsy)
     pool = [{"id": rng.choice(ids), "comps": sorted(rng.sample(range(3), rng.randint(0, 3)))} for _ in range(rng.randint(2, 16 if tier == "thorough" else 10))]
     ops = []
     for _ in range(rng.randint(5, 80 if tier == "thorough" else 50)):
@@ -84,6 +87,17 @@ def generate(rng, tier):
         for p_ in pool:
             p_["comps"] = []
         ops = [o for o in ops if o["op"] != "lifecycle"]
+    elif rng.random() < 0.3:
+        # some agents are environments themselves ("all environments are treated as agents"): with components of their own,
+        # with inhabitants when they join, and with a population that changes while they are resident
+        nested = []
+        for j, p_ in enumerate(pool):
+            if rng.random() < 0.3:
+                p_["nest"] = {"kind": rng.choice(["plain", "plain", "grid"]), "inner": rng.choice([0, 0, 1, 2])}
+                nested.append(j)
+        for j in nested:
+            for _ in range(rng.randint(0, 3)):
+                ops.insert(rng.randint(0, len(ops)), {"op": "nest", "k": j, "what": rng.choice(["add", "add", "remove"])})
     return {"world": world, "pool": pool, "ops": ops}
 
 
@@ -92,7 +106,6 @@ def execute(sc, ctx):
     ref = RefWorld(sc["world"])
     env = make_world(m, sc["world"])
     if sc["world"].get("orphan"):
-        from ECAgent.Core import Environment
         env = Environment(None)          # an environment without any model: only component-less agents can live in it
         ctx.probe("environment_without_model")
     spatial = ref.spatial
@@ -100,11 +113,26 @@ def execute(sc, ctx):
     pool = sc["pool"]
     if not pool:
         return
+    inner_serial = [0]
+
+    def inner_add(e):
+        inner_serial[0] += 1
+        x = Agent(f"inner{inner_serial[0]}", m)           # component-less inhabitant of a nested environment
+        e.add_agent(x, 0, 0) if isinstance(e, GridWorld) else e.add_agent(x)
+
     objs = []
     for i, spec in enumerate(pool):
-        a = Agent(spec["id"], m)
+        nest = spec.get("nest")
+        if nest and not sc["world"].get("orphan"):
+            a = GridWorld(m, 2, 2, id=spec["id"]) if nest["kind"] == "grid" else Environment(m, id=spec["id"])
+            ctx.probe("agent_is_an_environment")
+        else:
+            a = Agent(spec["id"], m)
         for c in spec["comps"]:
             a.add_component(KT[c % 3](a, m))
+        if isinstance(a, Environment):
+            for j in range(int(nest.get("inner", 0))):
+                inner_add(a)
         objs.append(a)
     residents = {}       # id -> pool index, insertion ordered
     ever = set()
@@ -128,6 +156,7 @@ def execute(sc, ctx):
         return {"env": [(a.id, id(a)) for a in env], "len": len(env),
                 "agents": [(id(a), sorted(t.__name__ for t in a.components), get_pos(a) if PositionComponent in a else None)
                            for a in objs],
+                "nested": [(id(a), [x.id for x in a.agents.values()]) for a in objs if isinstance(a, Environment)],
                 "pools": pools()}
 
     def check_agreement(where):
@@ -269,6 +298,16 @@ def execute(sc, ctx):
                 for _ in env:
                     break
             ctx.probe("caller_scrambles_listing")
+        elif kind == "nest":
+            e = objs[op["k"] % len(pool)]
+            if not isinstance(e, Environment):
+                continue
+            if op["what"] == "add":
+                ctx.expect_ok("nested-add", inner_add, e)
+            elif e.agents:
+                ctx.expect_ok("nested-remove", e.remove_agent, next(iter(e.agents)))
+            if e.id in residents and objs[residents[e.id]] is e:
+                ctx.probe("nested_population_changed_while_resident")
         elif kind == "observe":
             pass
         if len(residents) >= 3:
